@@ -91,3 +91,39 @@ func VxC08_Guards() {
 		vx.Assert(GammaInc(a, 0) == 0 && GammaIncComp(a, 0) == 1, "GammaInc(a,0) = 0 and GammaIncComp(a,0) = 1")
 	}
 }
+
+// VxC08_GuardsSpecial: the NaN guards on special argument values, through the real series/continued
+// fraction code (concrete arguments: the iteration runs to completion in the interpreter).
+//
+//vx:mode FP
+//vx:solver cvc5
+//vx:maxsteps 200000000
+//vx:bound a in {NaN, -1, 0, 0.05, 1, 2.5, 300}, x in {NaN, -1, 0, 0.5, 3} (case split; evaluated on the real code)
+func VxC08_GuardsSpecial() {
+	as := []float64{math.NaN(), -1, 0, 0.05, 1, 2.5, 300}
+	xs := []float64{math.NaN(), -1, 0, 0.5, 3}
+	a := as[vx.Choose("a", 0, len(as)-1)]
+	x := xs[vx.Choose("x", 0, len(xs)-1)]
+	var g, gc, bi float64
+	if vx.Panics(func() { g = GammaInc(a, x); gc = GammaIncComp(a, x) }) {
+		vx.Assert(false, "GammaInc / GammaIncComp do not panic on NaN, negative or zero arguments")
+		return
+	}
+	bad := a <= 0 || x < 0 || math.IsNaN(a) || math.IsNaN(x)
+	vx.Assert(bad == math.IsNaN(g) && bad == math.IsNaN(gc), "GammaInc and GammaIncComp are NaN exactly for a <= 0, x < 0 or NaN arguments")
+	if !bad {
+		vx.Assert(math.Abs(g+gc-1) <= 1e-9, "GammaInc + GammaIncComp = 1")
+	}
+	if math.IsNaN(x) {
+		return // the statement says nothing about BetaInc(NaN, a, b) (it does not converge and panics)
+	}
+	if vx.Panics(func() { bi = BetaInc(x, 2, 3) }) {
+		vx.Assert(false, "BetaInc does not panic on special arguments")
+		return
+	}
+	if x < 0 || x > 1 {
+		vx.Assert(math.IsNaN(bi), "BetaInc is NaN outside [0,1]")
+	} else if x == 0 {
+		vx.Assert(bi == 0, "BetaInc(0) = 0")
+	}
+}
